@@ -103,6 +103,17 @@ def gen(tier, rnd):
             for w in ws:
                 wunit = 'rad/s' if um is None else rnd.choice(spectab.units_of('AngularSpeed'))
                 evs.append(event(i, m, w, D, wunit)); i += 1
+        # the law is a function of (w, D) alone: the same object asked again after other duty cycles - in particular after a
+        # visit to the dead zone - must answer the same (live D -> dead zone -> the same D; random revisits)
+        live = [d for d in Ds if -1 <= d <= 1 and (i0 is None or abs(d) > i0 / imax * 1.01) and d != 0]
+        dead = [0.0] + ([i0 / imax / 2, -i0 / imax / 2] if i0 else [])
+        for D in rnd.sample(live, min(len(live), 4 if tier == 'quick' else 12)):
+            for z in dead:
+                for Dx in (D, z, D, D):
+                    evs.append(event(i, m, ws[1], Dx)); i += 1
+        seq = [rnd.choice(live + dead) for _ in range(10 if tier == 'quick' else 40)]
+        for Dx in seq + seq[::-1]:
+            evs.append(event(i, m, rnd.choice(ws), Dx)); i += 1
     return evs
 
 
